@@ -63,13 +63,13 @@ class C18(Harness):
 
     def spaces(self, tier, seed):
         q = tier == 'quick'
-        out = [{'mode': 'spec', 'gen': 'sym1', 'n': 4 if q else 6},
-               {'mode': 'spec', 'gen': 'alpha', 'n': 5 if q else 7},
+        out = [{'mode': 'spec', 'gen': 'sym1', 'n': 5 if q else 6},
+               {'mode': 'spec', 'gen': 'alpha', 'n': 6 if q else 7},
                {'mode': 'spec', 'gen': 'symall', 'n': 3 if q else 4},
                {'mode': 'spec', 'gen': 'symcls', 'classes': (1, 2), 'n': 5 if q else 6},
                {'mode': 'spec', 'gen': 'symcls', 'classes': (1, 3), 'n': 5},
-               {'mode': 'idem', 'gen': 'sym1', 'n': 4 if q else 5},
-               {'mode': 'idem', 'gen': 'alpha', 'n': 5 if q else 6},
+               {'mode': 'idem', 'gen': 'sym1', 'n': 5},
+               {'mode': 'idem', 'gen': 'alpha', 'n': 6},
                {'mode': 'indent', 'gen': 'alpha', 'alphabet': ['x', ' ', '\t', '\n', ' '], 'n': 4 if q else 5,
                 'pmax': 2},
                {'mode': 'indent', 'gen': 'sym1', 'n': 3 if q else 4, 'pmax': 1}]
@@ -83,7 +83,7 @@ class C18(Harness):
         q = tier == 'quick'
         return ('texts of <= %d symbolic 1-byte characters, <= %d over the alphabet %r, <= %d of the 1-3 byte classes; '
                 'idempotence on <= %d; dedent(indent(s,p)) = dedent(s) for whitespace prefixes of <= 2 characters and CR-free s'
-                % (4 if q else 6, 5 if q else 7, ALPHA, 3 if q else 4, 5 if q else 6))
+                % (5 if q else 6, 6 if q else 7, ALPHA, 3 if q else 4, 6))
 
     def run(self, I, cfg):
         s = gen_ml_text(self, I, cfg)
